@@ -109,7 +109,7 @@ def run(ctx):
         sims.append({"constants": c, "histories": len(uniq)})
         cases += uniq
     write_ndjson(ctx.path("cases.ndjson"), cases)
-    res = harness_all(ctx, ctx.path("cases.ndjson"), ["--targets-per-case", 5 if ctx.quick else 40])
+    res = harness_all(ctx, ctx.path("cases.ndjson"), ["--raw", "--targets-per-case", 5 if ctx.quick else 40])
     n_unknown = 0
     for v in res["violations"]:
         if v.get("known_key"):
@@ -150,7 +150,7 @@ def run(ctx):
         "known_findings_reproduced": known_hit, "violations_total": res["violations_total"],
         "rule": "a case is a complete operation history of GroupValues.tla replayed on one implementation target (schema x constructor); non-trivial = the history emits or clears a non-empty store; distinct = distinct histories",
     }, assumptions=[
-        "call discipline of the aggregation operators is applied in the main replay: clear_shrink is preceded by emit(All) on GroupValuesPrimitive/Bytes/BytesView and emit(All) is followed by clear_shrink on GroupValuesColumn; the raw histories violate C13 on the pinned code (known_findings.json) and are reproduced separately on every run",
+        "the main replay is raw (--raw): histories are replayed exactly, without the aggregation operators' call discipline (emit(All) directly followed by clear_shrink); the three call-discipline defects and the emit(First n) collision-list defect were repaired in /repo (known_findings.json `fixed`), their minimal histories are still replayed separately on every run and would be reported if they failed again",
         "emit is only issued after at least one intern on the store (GroupValuesRows has no row buffer before the first intern)",
         "unseen keys of one batch must receive exactly the ids pre..pre+k (any order); GroupValuesColumn<false> numbers them out of first-seen order under hash collisions (e.g. NULL list vs empty list), which the property allows",
         "floating point keys avoid NaN and -0.0",
